@@ -317,7 +317,77 @@ def _lanczos_quadrature(torch, A, q0, k):
     return (V[0] ** 2 * ev.clamp_min(1e-300).log()).sum()
 
 
-def rtc_slq(case_names, tier):
+HETERO_NAMES = ["hetero_scaledI_first", "hetero_scaledI_last", "hetero_rank1_first", "hetero_3evals_mid", "hetero_user_scaledI",
+                "hetero_blockdiag_scaledI", "hetero_addeddiag_scaledI"]
+
+
+def _hetero_cases(H):
+    """heterogeneous batches: one batch member has a low-degree minimal polynomial (c*I: 1 Lanczos step, I + v v^T: 2 steps,
+    three distinct eigenvalues: 3 steps) while the other members are generic PD matrices that need all n steps.  The property
+    is stated per operator, i.e. per batch member: each member's log-determinant is the n-step quadrature of its own probes."""
+    torch, zoo, O = H.torch, H.zoo, H.O
+    f64 = torch.float64
+
+    def special(g, kind, n):
+        if kind == "scaledI":
+            return 2.0 * torch.eye(n, dtype=f64)
+        if kind == "rank1":
+            v = torch.randn(n, 1, generator=g, dtype=f64)
+            return torch.eye(n, dtype=f64) + v @ v.mT
+        if kind == "3evals":
+            q, _ = torch.linalg.qr(torch.randn(n, n, generator=g, dtype=f64))
+            ev = torch.tensor([1.0, 3.0, 7.5], dtype=f64)[torch.arange(n) % 3]
+            a = (q * ev) @ q.mT
+            return 0.5 * (a + a.mT)
+        raise ValueError(kind)
+
+    def mats(g, dt, batch, n, kind, where):
+        b = batch if batch else (2,)
+        a = H.spd_spec(g, b, n, f64, "rand", 20.0).reshape(-1, n, n).clone()
+        idx = {"first": 0, "last": a.shape[0] - 1, "mid": a.shape[0] // 2}[where]
+        a[idx] = special(g, kind, n)
+        return a.reshape(*b, n, n).to(dt)
+
+    C = {}
+
+    def case(name):
+        def deco(fn):
+            c = zoo.Case(name, "hetero_batch", fn, psd=True)
+            c.cond, c.cg, c.f32 = 1e2, True, True
+            C[name] = c
+            return fn
+        return deco
+
+    for nm, kind, where in (("hetero_scaledI_first", "scaledI", "first"), ("hetero_scaledI_last", "scaledI", "last"),
+                            ("hetero_rank1_first", "rank1", "first"), ("hetero_3evals_mid", "3evals", "mid")):
+        def _mk(kind=kind, where=where):
+            def f(g, dt, batch, n):
+                a = mats(g, dt, batch, n, kind, where)
+                return O.DenseLinearOperator(a), a.clone()
+            return f
+        case(nm)(_mk())
+
+    @case("hetero_user_scaledI")
+    def _(g, dt, batch, n):  # no class-specific overrides at all
+        a = mats(g, dt, batch, n, "scaledI", "first")
+        return zoo._UserOp(a), a.clone()
+
+    @case("hetero_blockdiag_scaledI")
+    def _(g, dt, batch, n):  # the blocks are the batch the quadrature runs on: [2I, generic] on the diagonal
+        a = mats(g, dt, (*batch, 2), n, "scaledI", "first")
+        return O.BlockDiagLinearOperator(O.DenseLinearOperator(a)), zoo.block_diag_dense(a)
+
+    @case("hetero_addeddiag_scaledI")
+    def _(g, dt, batch, n):  # K + D with K = I resp. generic, D = I: un-preconditioned below min_preconditioning_size
+        a = mats(g, dt, batch, n, "scaledI", "first")
+        eye = torch.eye(n, dtype=dt)
+        return O.AddedDiagLinearOperator(O.DenseLinearOperator(a - eye), O.DiagLinearOperator(torch.ones(*a.shape[:-1], dtype=dt))), a.clone()
+
+    assert sorted(C) == sorted(HETERO_NAMES)
+    return C
+
+
+def rtc_slq(case_names, tier, family="std"):
     """stochastic path: returned logdet == log|P| + (n/m) sum_i q_i^T log(P^-1/2 A P^-1/2) q_i for the whitened unit
     probes q_i = P^-1/2 u_i/|.| of the probes u_i found on the autograd node (budget >= n), resp. its k-point
     Gauss-Lanczos rule (budget k < n); the accompanying inv_quad term is the CG quadratic form"""
@@ -343,8 +413,17 @@ def rtc_slq(case_names, tier):
         cb = [(f64, (), 4), (f64, (2,), 6), (f64, (2, 3), 2), (f64, (1,), 1), (torch.float32, (), 6), (torch.float32, (2,), 2), (f64, (), 2), (torch.float32, (1,), 4)]
     else:
         cb = H.combos("thorough")
+    cases = None
+    if family == "hetero":
+        # heterogeneous batches, sizes up to the default quadrature budget (20): the n-step rule is demanded of every member
+        cases = _hetero_cases(H)
+        cfgs = [cf for cf in cfgs if cf[0] in ("m1", "m5", "m3_lqN", "m3_lq3", "m3_pc0", "m2_deftol")]
+        if quick:
+            cb = [(f64, (2,), 6), (f64, (3,), 12), (f64, (2,), 16), (f64, (2, 2), 5), (torch.float32, (2,), 8), (f64, (), 9)]
+        else:
+            cb = [(dt_, b_, n_) for dt_ in (f64, torch.float32) for b_ in ((), (2,), (3,), (2, 2), (1, 2)) for n_ in (3, 5, 8, 12, 16, 20)]
     deterministic = set()
-    for label, c, dt, batch, n, make, D, kap in _instances(H, rec, tier, case_names, combos_=cb):
+    for label, c, dt, batch, n, make, D, kap in _instances(H, rec, tier, case_names, cases=cases, combos_=cb):
         if not getattr(c, "cg", True) or kap > 2e4:
             continue
         N, batch = D.shape[-1], tuple(D.shape[:-2])
@@ -352,7 +431,7 @@ def rtc_slq(case_names, tier):
             if (c.name, cfgname == "m3_mcN-1") in deterministic:
                 continue  # closed-form class: no stochastic path to examine (decided by rtc_iql)
             for rk in ("none", "mat"):
-                if quick and (ci + (rk == "mat")) % 2 and cfgname not in ("m5", "m4_pc2"):
+                if quick and family == "std" and (ci + (rk == "mat")) % 2 and cfgname not in ("m5", "m4_pc2"):
                     continue
                 lab = f"{label}|cfg={cfgname}|rhs={rk}"
                 op, _ = make()
@@ -461,6 +540,8 @@ def rtc_units(tier):
         us.append(Unit(f"C05/rtc/entries_histories[{ch[0]}..{ch[-1]}]", mod, "rtc_entries_histories", (ch, tier), engine="rtc", timeout_s=1500))
     for ch in _chunks(ALL_NAMES, 24):
         us.append(Unit(f"C05/rtc/slq[{ch[0]}..{ch[-1]}]", mod, "rtc_slq", (ch, tier), engine="rtc", timeout_s=1500))
+    for ch in _chunks(HETERO_NAMES, 4):
+        us.append(Unit(f"C05/rtc/slq_hetero[{','.join(ch)}]", mod, "rtc_slq", (ch, tier, "hetero"), engine="rtc", timeout_s=1500))
     us.append(Unit("C05/rtc/default_dtype", mod, "rtc_default_dtype", (ALL_NAMES, tier), engine="rtc", timeout_s=1500))
     return us
 
@@ -483,5 +564,8 @@ RTC_META = {
     "families": "28 PSD zoo + 42 local PSD cases x dtypes x batch shapes {(),(2,),(1,),(2,3)} x sizes {1,2,4,6} x 11 settings combinations "
                 "(max_cholesky_size 0/N-1/N/default, fast log_prob/solves, num_trace_samples 1..5, max_lanczos_quadrature_iterations 2/3/N/20, "
                 "skip_logdet_forward, memory_efficient, preconditioner size 0/2/3/15, linalg dtypes) x rhs {none, vector, matrix, 1 column} x logdet {T,F} x reduce {T,F}; "
-                "entry points logdet / torch.logdet / inv_quad / functional; broadcasting rhs for inv_quad; histories (cached root / cholesky / solve / logdet); default dtype float64 with float32 operators.",
+                "entry points logdet / torch.logdet / inv_quad / functional; broadcasting rhs for inv_quad; histories (cached root / cholesky / solve / logdet); default dtype float64 with float32 operators; "
+                "stochastic path on heterogeneous batches (slq_hetero units): one member c*I / I+vv^T / three distinct eigenvalues (first, middle or last in the batch) among generic "
+                "PD members, as Dense / user-defined / BlockDiag blocks / AddedDiag, batch {(2,),(3,),(2,2)}, n {5,6,8,9,12,16} <= the default quadrature budget (thorough: n {3..20}, 5 batch shapes, f32), "
+                "num_trace_samples {1,2,3,5}, budgets {3, N, 20}: every member's logdet must be the quadrature of its own probes.",
 }
